@@ -8,7 +8,7 @@ export GOFLAGS=-mod=mod GOPROXY=off GOSUMDB=off GOTOOLCHAIN=local; unset GOWORK
 PAR="${SWEEP_PAR:-4}"
 files=("$@"); [ ${#files[@]} -eq 0 ] && files=("$VERIF"/selftest/benign/*.diff)
 run_one() {
-  d="$1"; n="$(basename "$(dirname "$d")")/$(basename "$d" .diff)"
+  d="$(readlink -f "$1")"; n="$(basename "$(dirname "$d")")/$(basename "$d" .diff)"
   S="$(mktemp -d /tmp/bsweep.XXXXXX)"
   rsync -a --exclude .git /repo/ "$S/repo/"
   if ! (cd "$S/repo" && patch -p1 -s --no-backup-if-mismatch < "$d" >/dev/null 2>&1); then echo "benign $n: SKIPPED (does not apply)"; rm -rf "$S"; return; fi
